@@ -328,6 +328,9 @@ def run_job(w, job_modules, harnesses, outdir, jobs=16, harness_timeout=600, tot
         }
     res['stubs'] = stubs
     res['tools'] = d.get('tools', {})
+    if os.environ.get('VERIF_TIMES'):
+        for n, r in sorted(res['harness'].items(), key=lambda kv: -(kv[1].get('duration_ms') or 0)):
+            print('TIME %-50s %8.1fs %s' % (n, (r.get('duration_ms') or 0) / 1000.0, r.get('status')), flush=True)
     return res
 
 
